@@ -127,9 +127,13 @@ func rsaKey(name string) *rsa.PrivateKey {
 var serial int64 = 5000
 
 func selfSigned(cn string, pub crypto.PublicKey, priv crypto.Signer) ([]byte, *x509.Certificate) {
+	return selfSignedWindow(cn, pub, priv, time.Date(2024, 1, 1, 0, 0, 0, 0, time.UTC), time.Date(2025, 1, 1, 0, 0, 0, 0, time.UTC))
+}
+
+func selfSignedWindow(cn string, pub crypto.PublicKey, priv crypto.Signer, nb, na time.Time) ([]byte, *x509.Certificate) {
 	serial++
 	tmpl := &x509.Certificate{SerialNumber: big.NewInt(serial), Subject: pkix.Name{CommonName: cn},
-		NotBefore: time.Date(2024, 1, 1, 0, 0, 0, 0, time.UTC), NotAfter: time.Date(2025, 1, 1, 0, 0, 0, 0, time.UTC),
+		NotBefore: nb, NotAfter: na,
 		KeyUsage: x509.KeyUsageDigitalSignature | x509.KeyUsageKeyEncipherment, BasicConstraintsValid: true}
 	der, err := x509.CreateCertificate(rand.Reader, tmpl, tmpl, pub, priv)
 	if err != nil {
@@ -156,6 +160,7 @@ type memKeyStore struct {
 func (m *memKeyStore) GetKeyPair() (*rsa.PrivateKey, []byte, error) { return m.key, m.cert, nil }
 
 var idp1, spEnc, spSign *keyPair
+var idpNextCert, idpOldCert *x509.Certificate // roll-over members outside their validity window at the fake clock
 var ecKey *ecdsa.PrivateKey
 var ecDER []byte
 
@@ -375,7 +380,9 @@ func canonOf(name string) dsig.Canonicalizer {
 }
 
 func newSP(c spConfig) *saml2.SAMLServiceProvider {
-	store := &dsig.MemoryX509CertificateStore{Roots: []*x509.Certificate{idp1.cert}}
+	// a key roll-over store as deployments have it: the NEXT certificate (not valid yet) listed first, the current one, and
+	// the previous one (expired) — validation only reads it
+	store := &dsig.MemoryX509CertificateStore{Roots: []*x509.Certificate{idpNextCert, idp1.cert, idpOldCert}}
 	sp := &saml2.SAMLServiceProvider{
 		IdentityProviderSSOURL: ssoURL, IdentityProviderSLOURL: idpSLO, IdentityProviderIssuer: idpIss,
 		AssertionConsumerServiceURL: acsURL, ServiceProviderSLOURL: sloURL, ServiceProviderIssuer: spIss,
@@ -1041,6 +1048,8 @@ func main() {
 	seed := flag.Int64("seed", 1, "seed")
 	flag.Parse()
 	idp1, spEnc, spSign = newPair("idp1"), newPair("spenc"), newPair("spsign")
+	_, idpNextCert = selfSignedWindow("idp-next", &spSign.key.PublicKey, spSign.key, time.Date(2025, 1, 1, 0, 0, 0, 0, time.UTC), time.Date(2026, 1, 1, 0, 0, 0, 0, time.UTC))
+	_, idpOldCert = selfSignedWindow("idp-old", &spEnc.key.PublicKey, spEnc.key, time.Date(2023, 1, 1, 0, 0, 0, 0, time.UTC), time.Date(2024, 1, 1, 0, 0, 0, 0, time.UTC))
 	var err error
 	ecKey, err = ecdsa.GenerateKey(elliptic.P256(), rand.Reader)
 	must(err)
